@@ -6,9 +6,12 @@ import CfrVerif.Props.C07
 import CfrVerif.Proofs.Fuel
 import CfrVerif.Proofs.NoPanic
 import CfrVerif.Proofs.WellFormed
-import CfrVerif.Proofs.LocksCheck
+import CfrVerif.Proofs.LocksWide
+import CfrVerif.Proofs.LocksPerm
 --! audit CfrVerif/Proofs/Locks.lean
 --! audit CfrVerif/Proofs/LocksCheck.lean
+--! audit CfrVerif/Proofs/LocksWide.lean
+--! audit CfrVerif/Proofs/LocksPerm.lean
 /-!
 # C05 — every solve returns a well-formed strategy profile and never panics
 
